@@ -48,10 +48,14 @@ CHECKS["C16"] = {
 	"technique": BMCT + "; differential against a reference lookup",
 }
 CHECKS["C06"] = {
-	"text": "The real TilesConvertReader over an echo source (tiles = advertised coverage, payload = own coordinate): for all 4 flag combinations, all levels, full-width boxes and every requested coordinate CBMC decides "
-		"advertised coverage = {c in selection, T^-1(c) in source}, lookup returns exactly the source tile at the pre-image, and (thorough) the stream over any box <= 2x2 equals the lookups. The flip+swap defect needs both flags and an asymmetric coordinate: no test has it, the solver finds it.",
-	"note": "Source is a harness TilesReaderTrait implementation; futures driven by a hand-rolled block_on; map_blob_parallel replaced by a sequential map in the stream harness. Outside: writers (C01), CLI glue in convert.rs/serve.rs, geographic box -> pyramid (C15 geo harnesses).",
-	"technique": BMCT,
+	"text": "Three parts. (1) CBMC on the real coverage kernel of TilesConvertReader (advertised coverage = {c in selection, T^-1(c) in source} for all 4 flag combinations, full-width boxes) and on TileBBox::add_border. "
+		"(2) Engine B: the flip_y / swap_xy / clip call sequences of new_from_reader, get_tile_data, get_bbox_tile_stream and its map_coord closure are extracted from the nightly MIR for every (flip, swap, requested pyramid) assignment and z3 (thorough: also cvc5) decides "
+		"coverage = specification (flip first, then swap), lookup(T(p)) = p, stream coordinate map = T, stream request box = T^-1 of the requested box, for every level, box and tile; a SAT model is replayed on the real reader over an asymmetric echo source. "
+		"(3) CBMC on the geographic box -> tile box conversion (TileBBox::from_geo / TileCoord2::from_geo, one axis and one zoom per instance, every f64 bit pattern of a valid box, incl. the antimeridian and the 1e-6 guard). "
+		"The flip+swap defect needs both flags and an asymmetric coordinate: no test has it, the solver finds it.",
+	"note": "The async converting reader itself is out of reach for CBMC (5-38 GB, no verdict), hence Engine B for the lookup / stream paths; flags handed to a helper as arguments are not resolved by the walker (such a path is extracted without its transforms: a counterexample is then only reported if the native replay confirms it). "
+		"Outside: payloads on the lookup/stream path (C04), writers (C01), CLI glue in convert.rs/serve.rs, tan/ln by a monotone model in the latitude harnesses.",
+	"technique": BMCT + "; plus symbolic encoding of the compiler's MIR (nightly -Zunpretty=mir -> SMT-LIB2), z3 / cvc5, for the async lookup and stream paths",
 }
 CHECKS["C04"] = {
 	"text": "Recompression pipeline (TileConverter::new_tile_recompressor + process_blob, recompress/compress/decompress dispatch) under a codec model that is exactly the contract of a lossless codec: for all 3x3x2 (source, target, force) configurations and a symbolic payload, decoding the output under the TARGET compression yields the source payload; pipeline empty iff nothing to do.",
